@@ -332,6 +332,22 @@ empty @is_you(int n) {
 }''', [['3'], ['1'], ['0']]),
 ]
 
+MISC += [
+    # compound assignments whose right-hand side changes the very element (through an alias), the index or a global operand
+    ('aliased_compound', '''int gi = 5; byte gb = 7; int[] GA = [10, 20, 30]; byte[] GB = [1, 2, 3]; bool[] GO = [true, false, true];
+int poke(int[] arr, int k) { arr[k] += 100; write('k'); return 1; }
+byte pokeb(byte[] arr, int k) { arr[k] += 100; write('b'); return 1; }
+bool pokeo(bool[] arr, int k) { arr[k] = not arr[k]; write('o'); return true; }
+int bump() { gi += 1; return gi; }
+empty @is_you(int x) {
+  GA[0] += poke(GA, 0); write(GA[0]); write(' '); GA[1] = GA[1] + poke(GA, 1); write(GA[1]); write(' '); GA[2] *= poke(GA, 2) + x; write(GA[2]); write(' ');
+  GB[0] += pokeb(GB, 0); write(GB[0] is int); write(' '); GO[0] = GO[0] == pokeo(GO, 0); write(GO[0]); write(' ');
+  int[] l = [1, 2, 3]; l[0] += poke(l, 0); write(l[0]); write(' '); l[gi - 4] += bump(); write(l[1]); write(l[2]); write(' ');
+  GA[bump() - 7] += bump(); write(GA[0]); write(' '); gi = 0; GA[gi] = bump() + gi; write(GA[0]); write(GA[1]); write(' ');
+  gb += pokeb(GB, 1) + (GB[1] is byte); write(gb is int);
+}''', [['1'], ['-3']]),
+]
+
 # ------------------------------------------------------------------------------------------------ enumerated expression trees
 TREE_LEAVES = ['a', 'gi', 'gb', 'id(b)', 'ar[1]', 'GA[0]', '7', 's.length', 'bump()']
 TREE_OPS = ['+', '-', '*']
